@@ -6,7 +6,7 @@ share a rank.  Derived for callers:
   C14  a listed pair has a token in common unless both values have no tokens
        (from (b) and the fact that every rank in ranks(o, T) is the rank of a token of T);
   C04  a pair whose similarity meets the threshold is listed
-       (from (b), the proved prefix-length theorem A2 and the ASSUMED prefix principle PP of pure
+       (from (b), the proved prefix-length theorem A2 and the prefix principle PP (Lean: lemmas/Lemmas.lean) of pure
        mathematics: two duplicate-free sorted rank lists with at least max(n - p + 1, m - q + 1)
        common elements share an element within their first p and q positions)."""
 import z3
@@ -172,14 +172,14 @@ def _derived(_cls, _old):
         RL = z3.Implies(covers, z3.And(
             FA([a], z3.Implies(z3.And(a >= 0, a < ln(sp.lt)), L_len(LI, sp.Xl(a)) == sp.n(a)), [sp.Xl(a)]),
             FA([b], z3.Implies(z3.And(b >= 0, b < ln(sp.rt)), L_len(LI, sp.Xr(b)) == sp.m(b)), [sp.Xr(b)])))
-        # PP / PC: pure mathematics about sorted duplicate-free rank lists (ASSUMED, not machine-checked)
+        # PP / PC: pure mathematics about sorted duplicate-free rank lists (proved in Lean; the correspondence is trusted)
         PP = z3.Implies(z3.And(covers, sp.rs), FA([a, b], z3.Implies(
             z3.And(inr, ov(a, b) >= 1, ov(a, b) >= sp.n(a) - pl(sp.n(a)) + 1, ov(a, b) >= sp.m(b) - pl(sp.m(b)) + 1),
             ps(a, b)), [ov(a, b)]))
         PC = z3.Implies(covers, FA([a, b], z3.Implies(z3.And(inr, ps(a, b)), ov(a, b) >= 1), [ps(a, b)]))
-        c.ex.assumed_log.append('lemma PP (pure mathematics) [assumed: prefix principle: duplicate-free token lists with overlap >= '
+        c.ex.assumed_log.append('lemma PP (pure mathematics) [proved in Lean, lemmas/Lemmas.lean prefix_principle; statement correspondence assumed: prefix principle: duplicate-free token lists with overlap >= '
                                 'max(n - p + 1, m - q + 1) >= 1 share a rank within their first p and q sorted ranks]')
-        c.ex.assumed_log.append('lemma PC (pure mathematics) [assumed: token lists whose rank prefixes share a rank under an injective '
+        c.ex.assumed_log.append('lemma PC (pure mathematics) [proved in Lean, lemmas/Lemmas.lean shared_element_inter_pos; statement correspondence assumed: token lists whose rank prefixes share a rank under an injective '
                                 'order have a token in common]')
         c.extra.extend([RL, PP, PC] + pshare_axiom(M, o, sp.t, sp.q) + arithmetic_axioms(M, sp.t))
         c.extra.extend(f for _, f in _pcfg.ctx_facts(c, sp, M=M))
